@@ -8,7 +8,7 @@ for d in sorted(glob.glob(os.path.join(ROOT, "seeded", "*"))):
     m = json.load(open(mp)); c = m["confirmed_by_integrator"]
     esc = lambda s: (s or "").replace("|", "/").replace("\n", " ")
     rows.append(f"| {os.path.basename(d)} | {esc(m.get('summary'))[:230]} | {esc(m.get('needs_to_manifest'))[:200]} | "
-                f"exit {c['check_exit']}, {c['violation_lines']} VIOLATION line(s) | {esc(m.get('caught_by'))[:330]} |")
+                f"exit {c['check_exit']}, {c['violation_lines']} VIOLATION line(s)" + (" — OBSOLETE: harmless since " + esc(m['obsolete_after_fix'])[:120] if m.get('obsolete_after_fix') else "") + f" | {esc(m.get('caught_by'))[:420]} |")
 sec = ("### 10.6 Seeded changes (written by fresh sub-agents that saw only the property text) and what caught them\n\n"
        "Each change is kept under `seeded/<id>/` (patch.diff, the author's demonstration, meta.json with what was run). Every one "
        "compiles, passes the 622-test baseline, fails its own demonstration and passes it when reverted; the check was run as "
